@@ -300,6 +300,74 @@ func ruleJsonFirstValue(p *Prog, r *Report) {
 			}
 		}
 	}
+	// (c) what the decoder reports is what the caller gets: after the Decode call a nil error is returned only where the
+	// decoder's error was tested nil (io.EOF from Decode means "no value at all", which encoding/json rejects)
+	cleared, nRet := "", 0
+	for _, f := range scope {
+		eachInstr(f, func(b *ssa.BasicBlock, in ssa.Instruction) {
+			c, ok := in.(ssa.CallInstruction)
+			if !ok || !isDecode(c.Common()) {
+				return
+			}
+			E := errResult(c)
+			if E == nil {
+				return
+			}
+			after := reachableFromSuccs(c.Block())
+			after[c.Block()] = true
+			for rb := range after {
+				ret, isRet := rb.Instrs[len(rb.Instrs)-1].(*ssa.Return)
+				if !isRet || len(ret.Results) == 0 {
+					continue
+				}
+				rv := ret.Results[len(ret.Results)-1]
+				if !isErrorType(rv.Type()) {
+					continue
+				}
+				nRet++
+				var judge func(v ssa.Value, at *ssa.BasicBlock, extra []guard, d int)
+				judge = func(v ssa.Value, at *ssa.BasicBlock, extra []guard, d int) {
+					if v == E || d > 4 {
+						return
+					}
+					if isNilConst(v) {
+						okNil := errCheckedBefore(E, at)
+						for _, g := range extra {
+							ng := normGuard(g)
+							if bo, isB := ng.Cond.(*ssa.BinOp); isB && (bo.X == E && isNilConst(bo.Y) || bo.Y == E && isNilConst(bo.X)) {
+								if (bo.Op == token.EQL) == ng.Pol {
+									okNil = true
+								}
+							}
+						}
+						if !okNil && !decBlkBefore(c.Block(), at) {
+							return // a path that does not come from the Decode call
+						}
+						if !okNil && cleared == "" {
+							cleared = p.Pos(ret.Pos())
+						}
+						return
+					}
+					if ph, isPhi := v.(*ssa.Phi); isPhi {
+						for i, e := range ph.Edges {
+							pred := ph.Block().Preds[i]
+							var ex []guard
+							if ifi, isIf := pred.Instrs[len(pred.Instrs)-1].(*ssa.If); isIf && pred.Succs[0] != pred.Succs[1] {
+								ex = append(ex, guard{ifi.Cond, pred.Succs[0] == ph.Block()})
+							}
+							judge(e, pred, ex, d+1)
+						}
+					}
+				}
+				judge(rv, rb, nil, 0)
+			}
+		})
+	}
+	if cleared != "" {
+		r.Bad(rule, p.Name(fn), "the decoder's error is what is returned", cleared, "after the Decode call the return at "+cleared+" can report success although the decoder's error was not nil on that path: input without any JSON value (io.EOF) or otherwise rejected by encoding/json is accepted")
+	} else {
+		r.OK(rule, p.Name(fn), "the decoder's error is what is returned", p.Pos(fn.Pos()), fmt.Sprintf("%d return(s) after the Decode call hand back its error, or nil only where it was tested nil", nRet))
+	}
 	if again == "" {
 		r.OK(rule, p.Name(fn), "the decoder is asked for one value", p.Pos(fn.Pos()), fmt.Sprintf("%d Decode / Unmarshal call(s), none in a loop, none after another", nDec))
 	} else {
@@ -415,3 +483,374 @@ func ruleLeafAttrFilter(p *Prog, r *Report) {
 }
 
 var _ = types.Typ
+
+// ---- OPT.callers (C17, C18) ----------------------------------------------------------------------------------------------------------------
+
+// ruleOptCallers: the option setters are the user's interface to the package state; the library itself never calls one, except a
+// setter delegating to another setter (PrependAttrWithHyphen → SetAttrPrefix, XMLEscapeCharsDecoder → XMLEscapeChars). A decoder
+// or encoder that switches an option for the duration of its own work (and "restores" it) changes what concurrent and later
+// calls see.
+func ruleOptCallers(p *Prog, r *Report) {
+	const rule = "OPT.callers"
+	cg := p.CG()
+	n, bad := 0, ""
+	for _, sn := range grpSetters {
+		fn := p.Fn(sn)
+		if fn == nil {
+			continue
+		}
+		n++
+		for _, site := range cg.sites[fn] {
+			caller := site.Parent()
+			if caller == nil || !p.InModule(caller) {
+				continue
+			}
+			root := caller
+			for root.Parent() != nil {
+				root = root.Parent()
+			}
+			if p.isSetter(root) || (root.Name() == "init" && root.Synthetic != "") {
+				continue
+			}
+			if bad == "" {
+				bad = p.Name(root) + " calls " + sn + " at " + p.Pos(site.Pos())
+			}
+		}
+	}
+	cons := "setters are called by the user only"
+	switch {
+	case n == 0:
+		r.Unknown(rule, "mxj", cons, "", "no option setter found")
+	case bad != "":
+		r.Bad(rule, "mxj", cons, "", bad+": a library function changes package options while it runs, which other goroutines and later calls observe")
+	default:
+		r.OK(rule, "mxj", cons, "", fmt.Sprintf("%d setters, called from no module function other than another setter", n))
+	}
+}
+
+// ---- TABLE.trimset (C01, C02, C18) ---------------------------------------------------------------------------------------------------------
+
+// ruleTableTrimSet: DisableTrimWhiteSpace chooses between two cut sets that differ by the blank only: with the option on, blanks
+// are kept and nothing else changes — tab, carriage return and newline, which the indented encoders write between elements, are
+// trimmed in both states. Stated over the constants stored to trimRunes (initial value included).
+func ruleTableTrimSet(p *Prog, r *Report) {
+	const rule = "TABLE.trimset"
+	g := p.Globals["mxj.trimRunes"]
+	if g == nil {
+		r.Anchor(rule, "mxj.trimRunes")
+		return
+	}
+	sets := map[string]string{} // canonical rune set → where
+	unknown := ""
+	var all []*ssa.Function
+	all = append(all, p.FuncList...)
+	for _, sp := range p.SPkgs {
+		if ini := sp.Func("init"); ini != nil {
+			all = append(all, ini)
+		}
+	}
+	for _, f := range all {
+		eachInstr(f, func(b *ssa.BasicBlock, in ssa.Instruction) {
+			st, ok := in.(*ssa.Store)
+			if !ok || st.Addr != ssa.Value(g) {
+				return
+			}
+			vals := []ssa.Value{st.Val}
+			if ph, isPhi := st.Val.(*ssa.Phi); isPhi {
+				vals = ph.Edges
+			}
+			for _, v := range vals {
+				s, isC := constString(v)
+				if !isC {
+					unknown = p.Pos(st.Pos())
+					continue
+				}
+				rs := []rune(s)
+				sort.Slice(rs, func(i, j int) bool { return rs[i] < rs[j] })
+				var uq []rune
+				for i, c := range rs {
+					if i == 0 || c != rs[i-1] {
+						uq = append(uq, c)
+					}
+				}
+				sets[string(uq)] = p.Pos(st.Pos())
+			}
+		})
+	}
+	cons := "the two cut sets differ by the blank only"
+	if unknown != "" {
+		r.Assume(rule, "mxj.trimRunes", cons, unknown, "a value stored to trimRunes is not a constant: the cut sets are not decided here")
+		return
+	}
+	var with, without []string
+	for s := range sets {
+		if strings.ContainsRune(s, ' ') {
+			with = append(with, s)
+		} else {
+			without = append(without, s)
+		}
+	}
+	if len(with) != 1 || len(without) != 1 {
+		r.Bad(rule, "mxj.trimRunes", cons, "", fmt.Sprintf("expected one cut set with the blank and one without, found %d and %d", len(with), len(without)))
+		return
+	}
+	a, b := with[0], without[0]
+	if strings.Replace(a, " ", "", -1) != b {
+		r.Bad(rule, "mxj.trimRunes", cons, sets[b], fmt.Sprintf("with DisableTrimWhiteSpace on the cut set is %q, otherwise %q: the option changes more than the handling of blanks", b, a))
+		return
+	}
+	for _, c := range "\t\r\n" {
+		if !strings.ContainsRune(b, c) {
+			r.Bad(rule, "mxj.trimRunes", cons, sets[b], fmt.Sprintf("the cut set %q does not contain %q: white space the indented encoders write between elements comes back as text", b, string(c)))
+			return
+		}
+	}
+	r.OK(rule, "mxj.trimRunes", cons, sets[a], fmt.Sprintf("%q and %q", a, b))
+}
+
+// ---- WALK.literalkeys (C07) ----------------------------------------------------------------------------------------------------------------
+
+// ruleWalkLiteralKeys: the legacy path walker takes a plain path segment literally — it compares it with the wildcard and uses it
+// as a map key. It never converts a segment to a number: subscripts are the business of parsePath / valuesForArray, and a key
+// that happens to consist of digits is still a key.
+func ruleWalkLiteralKeys(p *Prog, r *Report, walkers []string) {
+	const rule = "WALK.literalkeys"
+	for _, wn := range walkers {
+		fn := p.Fn(wn)
+		if fn == nil {
+			r.Anchor(rule, wn)
+			continue
+		}
+		var keys *ssa.Parameter
+		for _, prm := range fn.Params {
+			if isStringSlice(prm.Type()) {
+				keys = prm
+			}
+		}
+		if keys == nil {
+			r.Unknown(rule, wn, "segments taken literally", p.Pos(fn.Pos()), "no []string path parameter")
+			continue
+		}
+		bad := ""
+		eachInstr(fn, func(b *ssa.BasicBlock, in ssa.Instruction) {
+			c, ok := in.(*ssa.Call)
+			if !ok || bad != "" {
+				return
+			}
+			if !hasPrefixAny(p.calleeName(&c.Call), "strconv.Atoi", "strconv.Parse", "fmt.Sscan") {
+				return
+			}
+			for _, a := range c.Call.Args {
+				if backwardSlice(fn, a)[keys] {
+					bad = p.Pos(c.Pos())
+				}
+			}
+		})
+		if bad == "" {
+			r.OK(rule, wn, "segments taken literally", p.Pos(fn.Pos()), "no numeric conversion of a path segment in the walker")
+		} else {
+			r.Bad(rule, wn, "segments taken literally", bad, "a path segment is converted to a number at "+bad+": a key consisting of digits is treated as a position, so the entries stored under it are not found")
+		}
+	}
+}
+
+// ---- SET.unconditional (C11) ---------------------------------------------------------------------------------------------------------------
+
+// ruleSetValueIndependent: whether SetValueForPath writes depends on the path and on what is found there, never on the value to
+// be stored (nil is a value like any other).
+func ruleSetValueIndependent(p *Prog, r *Report) {
+	const rule = "PATH.segments"
+	fn := p.Fn("mxj.Map.SetValueForPath")
+	if fn == nil {
+		r.Anchor(rule, "mxj.Map.SetValueForPath")
+		return
+	}
+	var val *ssa.Parameter
+	for _, prm := range fn.Params[1:] {
+		if isEmptyIface(prm.Type()) {
+			val = prm
+		}
+	}
+	if val == nil {
+		r.Unknown(rule, p.Name(fn), "the write does not depend on the new value", p.Pos(fn.Pos()), "no value parameter")
+		return
+	}
+	n, bad := 0, ""
+	eachInstr(fn, func(b *ssa.BasicBlock, in ssa.Instruction) {
+		mu, ok := in.(*ssa.MapUpdate)
+		if !ok || !isMapShaped(mu.Map.Type()) {
+			return
+		}
+		n++
+		if p.blockInfluence(fn, mu).params[val] {
+			bad = p.Pos(mu.Pos())
+		}
+	})
+	// returns of a nil error before the write must not be decided by the value either
+	eachInstr(fn, func(b *ssa.BasicBlock, in ssa.Instruction) {
+		ret, ok := in.(*ssa.Return)
+		if !ok || len(ret.Results) != 1 || !isNilConst(ret.Results[0]) {
+			return
+		}
+		if p.blockInfluence(fn, ret).params[val] && bad == "" {
+			bad = p.Pos(ret.Pos())
+		}
+	})
+	switch {
+	case n == 0:
+		r.Unknown(rule, p.Name(fn), "the write does not depend on the new value", p.Pos(fn.Pos()), "no map write found")
+	case bad != "":
+		r.Bad(rule, p.Name(fn), "the write does not depend on the new value", bad, "whether the entry is written (or success is reported without writing) at "+bad+" depends on the value to be stored: some values, nil for instance, are silently not set")
+	default:
+		r.OK(rule, p.Name(fn), "the write does not depend on the new value", p.Pos(fn.Pos()), fmt.Sprintf("%d write(s) and the success returns are control-independent of the value parameter", n))
+	}
+}
+
+// decBlkBefore: at is reachable from from (or is it).
+func decBlkBefore(from, at *ssa.BasicBlock) bool {
+	return from == at || reachableFromSuccs(from)[at]
+}
+
+// ---- FOLD.whole (C01) ----------------------------------------------------------------------------------------------------------------------
+
+// ruleFoldWhole: CoerceKeysToLower folds the key that goes into the Map, all of it — for an attribute that includes the attribute
+// prefix. A key assembled by concatenating something onto an already folded part is only partly folded. Stated over the code:
+// no string concatenation in the decoder (or its helpers) that feeds a map key has a strings.ToLower result as an operand.
+func ruleFoldWhole(p *Prog, r *Report, decoders []string) {
+	const rule = "FOLD.total"
+	for _, n := range decoders {
+		fn := p.Fn(n)
+		if fn == nil {
+			r.Anchor(rule, n)
+			continue
+		}
+		var folded func(f *ssa.Function, v ssa.Value, d int) bool
+		folded = func(f *ssa.Function, v ssa.Value, d int) bool {
+			if d > 4 {
+				return false
+			}
+			switch x := v.(type) {
+			case *ssa.Call:
+				if isCallTo(&x.Call, "strings.ToLower") {
+					return true
+				}
+				if h := staticCallee(&x.Call); h != nil && p.InModule(h) && !p.Exported(h) && len(h.Blocks) > 0 {
+					res := false
+					eachInstr(h, func(b *ssa.BasicBlock, in ssa.Instruction) {
+						if ret, ok := in.(*ssa.Return); ok && len(ret.Results) > 0 && folded(h, ret.Results[0], d+1) {
+							res = true
+						}
+					})
+					return res
+				}
+			case *ssa.Phi:
+				for _, e := range x.Edges {
+					if e != v && folded(f, e, d+1) {
+						return true
+					}
+				}
+			}
+			return false
+		}
+		bad, nCat := "", 0
+		eachInstr(fn, func(b *ssa.BasicBlock, in ssa.Instruction) {
+			bo, ok := in.(*ssa.BinOp)
+			if !ok || bo.Op != token.ADD || !isStringType(bo.Type()) {
+				return
+			}
+			// feeds a map key?
+			feeds := false
+			for x := range forwardSlice(fn, bo) {
+				if mu, ok := x.(*ssa.MapUpdate); ok && backwardSlice(fn, mu.Key)[bo] {
+					feeds = true
+				}
+			}
+			if !feeds {
+				return
+			}
+			nCat++
+			if folded(fn, bo.X, 0) || folded(fn, bo.Y, 0) {
+				bad = p.Pos(bo.Pos())
+			}
+		})
+		cons := "lower-casing applies to the assembled key"
+		if bad != "" {
+			r.Bad(rule, n, cons, bad, "the map key assembled at "+bad+" concatenates onto an already lower-cased part: the rest of the key (the attribute prefix) is not folded under CoerceKeysToLower")
+		} else {
+			r.OK(rule, n, cons, p.Pos(fn.Pos()), fmt.Sprintf("%d concatenation(s) feed a map key, none with a strings.ToLower result as operand", nCat))
+		}
+	}
+}
+
+// ---- FWD.castflag (C20) --------------------------------------------------------------------------------------------------------------------
+
+// ruleFwdCastFlag: in the thin packages the decoder's cast argument is the caller's recast option and nothing else. An optional
+// flag of another meaning (getAttrs) never reaches the cast argument of mxj.NewMapXml* — directly, or through a shared helper
+// that resolves "the optional flag" and decodes.
+func ruleFwdCastFlag(p *Prog, r *Report, pkgs ...string) {
+	const rule = "FWD.names"
+	isDecoder := func(g *ssa.Function) bool {
+		return g != nil && strings.HasPrefix(p.Name(g), "mxj.NewMapXml") && g.Signature.Variadic()
+	}
+	castMeaning := func(name string) bool {
+		switch strings.ToLower(name) {
+		case "recast", "cast", "r", "c":
+			return true
+		}
+		return false
+	}
+	n := 0
+	for _, pk := range pkgs {
+		for _, fn := range p.PkgFuncs(pk) {
+			if len(fn.Blocks) == 0 || !p.Exported(fn) {
+				continue
+			}
+			va := variadicParam(fn)
+			if va == nil || castMeaning(va.Name()) {
+				continue
+			}
+			if sl, ok := va.Type().Underlying().(*types.Slice); !ok || !isBoolType(sl.Elem()) {
+				continue
+			}
+			n++
+			bad := ""
+			// decoder calls in f whose cast argument depends on the parameter prm
+			var scan func(f *ssa.Function, prm *ssa.Parameter, d int)
+			scan = func(f *ssa.Function, prm *ssa.Parameter, d int) {
+				eachInstr(f, func(b *ssa.BasicBlock, in ssa.Instruction) {
+					c, ok := in.(ssa.CallInstruction)
+					if !ok || bad != "" {
+						return
+					}
+					g := staticCallee(c.Common())
+					if g == nil {
+						return
+					}
+					args := c.Common().Args
+					if isDecoder(g) {
+						last := args[len(args)-1]
+						if !isNilConst(last) && p.influence(f, true, last).params[prm] {
+							bad = "the option '" + va.Name() + "' of " + p.Name(fn) + " reaches the cast argument of " + p.Name(g) + " at " + p.Pos(in.Pos())
+						}
+						return
+					}
+					if p.InModule(g) && !p.Exported(g) && len(g.Blocks) > 0 && d < 3 {
+						for i, a := range args {
+							if i < len(g.Params) && p.influence(f, false, a).params[prm] {
+								scan(g, g.Params[i], d+1)
+							}
+						}
+					}
+				})
+			}
+			scan(fn, va, 0)
+			cons := "option '" + va.Name() + "' does not select casting"
+			if bad != "" {
+				r.Bad(rule, p.Name(fn), cons, p.Pos(fn.Pos()), bad+": asking for attributes also casts the values")
+			} else {
+				r.OK(rule, p.Name(fn), cons, p.Pos(fn.Pos()), "no mxj.NewMapXml* call below this function takes its cast argument from the option")
+			}
+		}
+	}
+	_ = n
+}
